@@ -567,7 +567,7 @@ class _DevIsWaitingForMsg(BindStateBase):
 
     def rcvd_msg(self, msg: Message) -> None:
         """If the msg is the waited-for pkt, transition to the next state."""
-        if self.is_phase(msg._pkt, self._expected_pkt_phase):
+        if self.is_phase(msg._pkt, self._expected_pkt_phase) and not self._fut.done():
             self._fut.set_result(msg)
 
 
@@ -614,7 +614,7 @@ class _DevIsReadyToSendCmd(BindStateBase):
 
     def rcvd_msg(self, msg: Message) -> None:
         """If the msg is the echo of the sent cmd, transition to the next state."""
-        if self._cmd and msg._pkt == self._cmd:
+        if self._cmd and msg._pkt == self._cmd and not self._fut.done():
             self._fut.set_result(msg)
 
 
@@ -629,7 +629,7 @@ class _DevSendCmdUntilReply(_DevIsWaitingForMsg, _DevIsReadyToSendCmd):
         """If the msg is the expected reply, transition to the next state."""
         # if self._cmd and msg._pkt == self._cmd:  # the echo
         #     self._set_context_state(self._next_ctx_state)
-        if self.is_phase(msg._pkt, self._expected_pkt_phase):
+        if self.is_phase(msg._pkt, self._expected_pkt_phase) and not self._fut.done():
             self._fut.set_result(msg)
 
 
